@@ -28,6 +28,13 @@ FINDINGS = {
     "K7": {"props": ["C01"],
            "what": "aligned structure ending in an [EOF] array: the tail padding written by dumps() is read back as "
                    "array elements (or a partial element)"},
+    "K8": {"props": ["C06"],
+           "what": "bit-field members of a union ignore their width (union { uint8 a:4; uint8 b:4; } parses 0xa5 as "
+                   "a = b = 0xa5)"},
+    "K9": {"props": ["C04"],
+           "what": "aligned structure used at an unaligned offset of a packed structure: its tail padding is computed "
+                   "from the absolute stream position, so bytes consumed / dumped differ from len() and array elements "
+                   "are not len(T) apart"},
 }
 
 
